@@ -21,11 +21,17 @@ struct TS : mp::SolverImpl<mp::Problem> {
   void SetD(const mp::SolverOption &, double v) { d_ = v; }
   std::string GetS(const mp::SolverOption &) const { return s_; }
   void SetS(const mp::SolverOption &, fmt::StringRef v) { s_ = v.to_string(); }
+  int syn_[3] = {-1, -1, -1};
+  template <int K> int GetN(const mp::SolverOption &) const { return syn_[K]; }
+  template <int K> void SetN(const mp::SolverOption &, int v) { syn_[K] = v; }
   int w_ = 0, nw_ = 0; std::string wbody_;
   int GetW(const mp::SolverOption &) const { return w_; }
   void SetW(const mp::SolverOption &opt, int v) { wbody_ = opt.wc_keybody_last(); w_ = v; ++nw_; }
   TS() : SolverImpl("testsolver", "", 0, 0) {
     AddIntOption("tag:*:end tag_*_end", "wildcard option", &TS::GetW, &TS::SetW);
+    AddIntOption("alg:cut cut", "option with an inline synonym", &TS::GetN<0>, &TS::SetN<0>);
+    AddIntOption("pre:cutoff cutoff", "option whose synonym extends another synonym", &TS::GetN<1>, &TS::SetN<1>);
+    AddIntOption("tech:outlev outlev", "option with an inline synonym", &TS::GetN<2>, &TS::SetN<2>);
     AddIntOption("iopt", "int option", &TS::GetI, &TS::SetI);
     AddDblOption("dopt", "double option", &TS::GetD, &TS::SetD);
     AddStrOption("sopt", "string option", &TS::GetS, &TS::SetS);
@@ -59,6 +65,22 @@ static int wildcard_sweep() {
       TS s; try { s.ParseOptionString(buf.data(), mp::BasicSolver::NO_OPTION_ECHO); } catch (const std::exception &) {}
       if (s.nw_ != 1 || s.w_ != 7 || s.wbody_ != body) { if (bad++ < 5) printf("VIOLATED: option text [%s] addresses the wildcard option %s with body [%s]: set %d time(s), value %d, body [%s]\n", text.c_str(), form ? "tag_*_end" : "tag:*:end", body.c_str(), s.nw_, s.w_, s.wbody_.c_str()); }
     }
+  }
+  return bad ? 10 : 0;
+}
+// synonyms: a name addresses an option through an inline synonym exactly when it equals the synonym up to letter case
+static int synonym_sweep() {
+  struct { const char *text; int want[3]; } T[] = {
+    {"cut=1", {1, -1, -1}}, {"CUT=2", {2, -1, -1}}, {"Cut 3", {3, -1, -1}}, {"alg:cut=4", {4, -1, -1}},
+    {"cutoff=50", {-1, 50, -1}}, {"CutOff=51", {-1, 51, -1}}, {"pre:cutoff=52", {-1, 52, -1}},
+    {"outlev=5", {-1, -1, 5}}, {"OUTLEV=6", {-1, -1, 6}},
+    {"outlevel=7", {-1, -1, -1}}, {"cuts=1", {-1, -1, -1}}, {"cu=1", {-1, -1, -1}}, {"cutof=1", {-1, -1, -1}}, {"outle=1", {-1, -1, -1}}};
+  int bad = 0;
+  for (auto &t : T) {
+    std::string text = t.text; std::vector<char> buf(text.begin(), text.end()); buf.push_back(0);
+    TS s; try { s.ParseOptionString(buf.data(), mp::BasicSolver::NO_OPTION_ECHO); } catch (const std::exception &) {}
+    if (s.syn_[0] != t.want[0] || s.syn_[1] != t.want[1] || s.syn_[2] != t.want[2]) { ++bad;
+      printf("VIOLATED: option text [%s]: (cut, cutoff, outlev) = (%d, %d, %d), expected (%d, %d, %d)\n", t.text, s.syn_[0], s.syn_[1], s.syn_[2], t.want[0], t.want[1], t.want[2]); }
   }
   return bad ? 10 : 0;
 }
@@ -114,7 +136,8 @@ static int sweep() {
 }
 int main(int argc, char **argv) {
   if (argc < 2) return 2;
-  if (!strcmp(argv[1], "--sweep")) { int r = sweep(); return r ? r : wildcard_sweep(); }
+  if (!strcmp(argv[1], "--sweep")) { int r = sweep(); if (!r) r = wildcard_sweep(); return r ? r : synonym_sweep(); }
+  if (!strcmp(argv[1], "--synonyms")) return synonym_sweep();
   if (!strcmp(argv[1], "--wildcard")) return wildcard_sweep();
   return parse_one(argv[1], true);
 }
